@@ -66,6 +66,15 @@ def gen_range(r, n):
 def gen_slice_items(r, info, nslots=None):
     items = _gen_slice_items(r, info)
     arraylike = sum(1 for it in items if it["k"] in ("ints", "bools", "missing", "jagged"))
+    if arraylike == 1 and r.random() < 0.12:
+        # the single integer index array is two-dimensional (a[np.array([[0, 1], [2, 0]])])
+        for it in items:
+            if it["k"] == "ints":
+                cols = r.choice([0, 1, 2, 2, 3])
+                rows = r.choice([0, 1, 2, 2, 3])
+                pool_vals = it["v"] or [0]
+                it.clear()
+                it.update({"k": "ints2d", "cols": cols, "v": [[r.choice(pool_vals) for _ in range(cols)] for _ in range(rows)]})
     for it in items:
         if it["k"] in ("ints", "bools", "missing", "jagged"):
             # (only as the single array-like item: several index arrays in one slice must broadcast, the Python layer
@@ -283,6 +292,9 @@ def apply(node, op, a, slot_handle, tmp, before=None):
                 add_array_item(s, h, it)
             elif ik == "fromslot":
                 add_array_item(s, slot_handle(it["slot"]), it)
+            elif ik == "ints2d":
+                flat = [x for row in it["v"] for x in row]
+                node.slice_add(s, 7, [2, len(it["v"]), it["cols"]] + flat)
             elif ik == "field":
                 node.slice_add(s, 5, sarg=it["key"])
             elif ik == "fields":
